@@ -996,3 +996,4 @@ package httpserver
 //@   requires c != nil && c.Context() != nil && (*httpContext)(c.Context()).keysToSiteConfigs != nil
 //@   modifies httpContext.siteConfigs, E:*github.com/tmpim/casket/caskethttp/httpserver.SiteConfig, MV:map[string]*github.com/tmpim/casket/caskethttp/httpserver.SiteConfig, MD:map[string]*github.com/tmpim/casket/caskethttp/httpserver.SiteConfig, Config.Issuers
 //@   ensures [a_site_configuration_with_its_tls_manager_and_issuer] result != nil && result.TLS != nil && result.TLS.Issuer != nil && result.TLS.Manager != nil
+
